@@ -117,6 +117,7 @@ func c08RefNameConst(p *Prog) (string, bool) {
 }
 
 type c08Pass struct {
+	fn      *ssa.Function
 	l       *Loop
 	k, v    ssa.Value
 	obj     c09DescObj
@@ -131,7 +132,7 @@ func c08Passes(f *ssa.Function, maps map[ssa.Value]bool) []c08Pass {
 		if !ok || !maps[ranged] {
 			continue
 		}
-		p := c08Pass{l: l}
+		p := c08Pass{fn: f, l: l}
 		for _, r := range *next.Referrers() {
 			if e, ok := r.(*ssa.Extract); ok {
 				if e.Index == 1 {
@@ -290,12 +291,40 @@ func c08R1(c *Ctx, r *c08Roles) {
 	}
 	for S := range r.savers {
 		sn := FnName(S)
-		resolver := c08StoreFieldLoads(S, r.store, "tagResolver")
+		// the projection may be spread over unexported helpers below S (passes extracted into functions)
+		var hosts []*ssa.Function
+		for _, h := range c09ReachableInPkg(S, 2) {
+			if h == S || (!r.indexWriter[h] && !c08IsStripHelper(c.P, h) && (h.Object() == nil || !h.Object().Exported())) {
+				hosts = append(hosts, h)
+			}
+		}
 		maps := map[ssa.Value]bool{}
-		for _, mc := range CallsTo(S, c08nResMap) {
-			if resolver[mc.Common().Args[0]] {
-				for a := range Aliases(mc.Value()) {
-					maps[a] = true
+		for _, h := range hosts {
+			resolver := c08StoreFieldLoads(h, r.store, "tagResolver")
+			for _, mc := range CallsTo(h, c08nResMap) {
+				if resolver[mc.Common().Args[0]] {
+					for a := range Aliases(mc.Value()) {
+						maps[a] = true
+					}
+				}
+			}
+		}
+		for round := 0; round < 2; round++ {
+			for _, h := range hosts {
+				if h == S {
+					continue
+				}
+				for _, prm := range h.Params {
+					os, ok := c09Origins(c.P, prm, 1, nil)
+					all := ok && len(os) > 0
+					for _, o := range os {
+						all = all && maps[o]
+					}
+					if all {
+						for a := range Aliases(prm) {
+							maps[a] = true
+						}
+					}
 				}
 			}
 		}
@@ -324,9 +353,24 @@ func c08R1(c *Ctx, r *c08Roles) {
 				for _, e := range u.Edges {
 					grow(e)
 				}
+			case *ssa.Extract:
+				if call, ok := u.Tuple.(*ssa.Call); ok {
+					if g := StaticCallee(call); g != nil && len(g.Blocks) > 0 && fnPkgPath(g) == pkgPath(c08Pkg) {
+						for _, a := range RetAtoms(g, u.Index) {
+							grow(a.Val)
+						}
+					}
+				}
 			case *ssa.Call:
 				if CalleeName(u) == "builtin:append" {
 					grow(u.Call.Args[0])
+					if _, whole := c09AppendedElems(u); whole != nil {
+						grow(whole) // append(a, b...): b's elements are emitted too
+					}
+				} else if g := StaticCallee(u); g != nil && len(g.Blocks) > 0 && fnPkgPath(g) == pkgPath(c08Pkg) {
+					for _, a := range RetAtoms(g, 0) {
+						grow(a.Val) // the slice built by an extracted pass
+					}
 				}
 			}
 		}
@@ -336,13 +380,17 @@ func c08R1(c *Ctx, r *c08Roles) {
 			elems []ssa.Value
 		}
 		var emits []emit
-		for _, ap := range CallsTo(S, "builtin:append") {
-			if acc[ap.Value()] {
-				el, _ := c09AppendedElems(ap)
-				emits = append(emits, emit{ap, el})
+		var passes []c08Pass
+		for _, h := range hosts {
+			for _, ap := range CallsTo(h, "builtin:append") {
+				if acc[ap.Value()] {
+					if el, _ := c09AppendedElems(ap); len(el) > 0 {
+						emits = append(emits, emit{ap, el})
+					}
+				}
 			}
+			passes = append(passes, c08Passes(h, maps)...)
 		}
-		passes := c08Passes(S, maps)
 		// pass 1: every ref != digest entry is appended
 		var p1 *c08Pass
 		var p1Emits []emit
@@ -400,7 +448,7 @@ func c08R1(c *Ctx, r *c08Roles) {
 			for _, e := range em.elems {
 				nChecked++
 				if p1.obj.vals[e] {
-					ok, w, cp := c08RefNameSet(S, p1.obj, p1.k, e, refName)
+					ok, w, cp := c08RefNameSet(p1.fn, p1.obj, p1.k, e, refName)
 					if !ok {
 						okAnn, why = false, w
 					}
@@ -452,10 +500,81 @@ func c08R1(c *Ctx, r *c08Roles) {
 		}
 		// pass 2: every ref == digest entry is appended stripped, or skipped because its digest was emitted in pass 1
 		var dedupSets = map[ssa.Value]bool{}
-		for _, sc := range CallsTo(S, "~/internal/container/set.New") {
-			for a := range Aliases(sc.Value()) {
-				dedupSets[a] = true
+		for _, h := range hosts {
+			for _, sc := range CallsTo(h, "~/internal/container/set.New") {
+				for a := range Aliases(sc.Value()) {
+					dedupSets[a] = true
+				}
 			}
+		}
+		// the set handed on to / returned by an extracted pass
+		var isDedup func(v ssa.Value, d int) bool
+		isDedup = func(v ssa.Value, d int) bool {
+			if v == nil || d > 3 {
+				return false
+			}
+			if dedupSets[v] {
+				return true
+			}
+			rs := Roots(v)
+			if len(rs) == 0 {
+				return false
+			}
+			for _, rt := range rs {
+				ok := dedupSets[rt]
+				switch u := rt.(type) {
+				case *ssa.Parameter:
+					if os, okO := c09Origins(c.P, u, 1, nil); okO && len(os) > 0 && !(len(os) == 1 && os[0] == ssa.Value(u)) {
+						ok = true
+						for _, o := range os {
+							ok = ok && isDedup(o, d+1)
+						}
+					}
+				case *ssa.Call, *ssa.Extract:
+					var call *ssa.Call
+					idx := 0
+					if ex, isEx := u.(*ssa.Extract); isEx {
+						call, _ = ex.Tuple.(*ssa.Call)
+						idx = ex.Index
+					} else {
+						call = u.(*ssa.Call)
+					}
+					if call != nil {
+						if g := StaticCallee(call); g != nil && len(g.Blocks) > 0 && fnPkgPath(g) == pkgPath(c08Pkg) && idx < g.Signature.Results().Len() {
+							as := RetAtoms(g, idx)
+							ok = len(as) > 0
+							for _, a := range as {
+								ok = ok && isDedup(a.Val, d+1)
+							}
+						}
+					}
+				}
+				if !ok {
+					return false
+				}
+			}
+			return true
+		}
+		for _, h := range hosts {
+			for _, prm := range h.Params {
+				if c09IsSetType(prm.Type()) && isDedup(prm, 0) {
+					for a := range Aliases(prm) {
+						dedupSets[a] = true
+					}
+				}
+			}
+			AllInstrs(h, func(in ssa.Instruction) {
+				if v, ok := in.(ssa.Value); ok && c09IsSetType(v.Type()) && !dedupSets[v] {
+					switch v.(type) {
+					case *ssa.Call, *ssa.Extract:
+						if isDedup(v, 0) {
+							for a := range Aliases(v) {
+								dedupSets[a] = true
+							}
+						}
+					}
+				}
+			})
 		}
 		var p2 *c08Pass
 		okStrip := true
@@ -484,7 +603,7 @@ func c08R1(c *Ctx, r *c08Roles) {
 					}
 				}
 			}
-			dup, _, _ := CallTests(S, "(~/internal/container/set.Set[T]).Contains", func(x *ssa.Call) bool {
+			dup, _, _ := CallTests(p.fn, "(~/internal/container/set.Set[T]).Contains", func(x *ssa.Call) bool {
 				return dedupSets[x.Call.Args[0]] && p.obj.fieldOf(x.Call.Args[1], "Digest")
 			})
 			ct.Edges(dup...)
@@ -506,25 +625,27 @@ func c08R1(c *Ctx, r *c08Roles) {
 		}
 		// de-duplication set: only digests emitted in pass 1
 		okDedup, nAdd := true, 0
-		AllInstrs(S, func(in ssa.Instruction) {
-			op, set, elem := c09SetOp(in)
-			if op != "add" || !dedupSets[set] {
-				return
-			}
-			nAdd++
-			if !p1.l.Contains(in) || !p1.obj.fieldOf(elem, "Digest") {
-				okDedup = false
-				return
-			}
-			ct := newCut()
-			for _, em := range p1Emits {
-				ct.Instr(em.call.(ssa.Instruction))
-			}
-			hdr := p1.l.Header.Instrs[0]
-			if reach(p1.l.Header, 0, in, ct) && reach(in.Block(), instrIndex(in)+1, hdr, ct) {
-				okDedup = false
-			}
-		})
+		for _, h := range hosts {
+			AllInstrs(h, func(in ssa.Instruction) {
+				op, set, elem := c09SetOp(in)
+				if op != "add" || !dedupSets[set] {
+					return
+				}
+				nAdd++
+				if !p1.l.Contains(in) || !p1.obj.fieldOf(elem, "Digest") {
+					okDedup = false
+					return
+				}
+				ct := newCut()
+				for _, em := range p1Emits {
+					ct.Instr(em.call.(ssa.Instruction))
+				}
+				hdr := p1.l.Header.Instrs[0]
+				if reach(p1.l.Header, 0, in, ct) && reach(in.Block(), instrIndex(in)+1, hdr, ct) {
+					okDedup = false
+				}
+			})
+		}
 		if nAdd > 0 {
 			c.Check(R1, sn+"|dedup-only-emitted-digests", S.Pos(), okDedup, ifelse(okDedup, "a digest enters the de-duplication set only in an iteration of the first pass that appends the entry",
 				"a digest can be marked as already written without its entry having been appended: the second pass then skips a manifest that is in no index entry"))
@@ -551,10 +672,9 @@ func c08R1(c *Ctx, r *c08Roles) {
 				}
 			})
 		}
-		check(S)
-		for _, call := range Calls(S, func(string) bool { return true }) {
-			if g := StaticCallee(call); g != nil && g != S && len(g.Blocks) > 0 && fnPkgPath(g) == pkgPath(c08Pkg) {
-				check(g) // helpers that build or strip the emitted descriptors
+		for _, h := range c09ReachableInPkg(S, 2) {
+			if !r.indexWriter[h] && (h == S || h.Object() == nil || !h.Object().Exported()) {
+				check(h) // the projection and the helpers that build or strip the emitted descriptors
 			}
 		}
 		c.Check(R1, sn+"|resolver-maps-not-written", S.Pos(), okFresh, ifelse(okFresh, "every map written by the projection (and the strip helper) is made locally", whyFresh+": the descriptor held by the resolver (and returned by Resolve) would change"))
